@@ -184,7 +184,8 @@ def main():
                     "quick_cmd": f"./check {pid} quick",
                     "thorough_cmd": f"./check {pid} thorough",
                     "evidence_file": f"/verif/evidence/{pid}.json",
-                    "replay_cmd_template": "/venv/bin/python {path}",
+                    # replays of these checks import /verif modules (graph interpreter, monitors): they need the overlay venv
+                    "replay_cmd_template": ("/verif/.venv/bin/python {path}" if pid in ("C04", "C05", "C13", "C15") else "/venv/bin/python {path}"),
                     "engine": c["engine"],
                     "level_claimed": {"category": c["cat"], "text": c["text"], "design_ref": c["ref"]},
                     "level_note": c["note"],
